@@ -96,15 +96,14 @@ theorem afExt_eq (e : PacketAdaptationExtensionField)
 /-! ### adaptation field -/
 
 /-- an adaptation field (not the one-byte form) on which the reference encoder and the writer agree: the delivered
-`length` is the computed adaptation_field_length and fits one byte, `int64` values that are announced are not negative,
-TransportPrivateDataLength is the length of the private data.  (Values wider than their bit field are masked identically
-by both sides, so no upper bounds are needed.) -/
+`length` is the computed adaptation_field_length and fits one byte, `int64` values that are announced are not negative.
+(Values wider than their bit field are masked identically by both sides, so no upper bounds are needed; the redundant
+field TransportPrivateDataLength is read by neither side — both derive the length byte from the data — so it is free.) -/
 structure AFAgree (a : PacketAdaptationField) : Prop where
   length : a.length = afSize a
   pcr : a.hasPCR = true → 0 ≤ (a.pcr.getD default).base ∧ 0 ≤ (a.pcr.getD default).extension
   opcr : a.hasOPCR = true → 0 ≤ (a.opcr.getD default).base ∧ 0 ≤ (a.opcr.getD default).extension
   splice : a.hasSplicingCountdown = true → 0 ≤ a.spliceCountdown
-  priv : a.hasTransportPrivateData = true → a.transportPrivateDataLength = a.transportPrivateData.length
   ext : a.hasAdaptationExtensionField = true → (a.adaptationExtensionField.getD {}).hasSeamlessSplice = true →
     0 ≤ ((a.adaptationExtensionField.getD {}).dtsNextAccessUnit.getD default).base
 
@@ -115,7 +114,7 @@ def afBody (a : PacketAdaptationField) : Bytes :=
     ++ ((if a.hasOPCR = true then pcrBytes (a.opcr.getD default) else [])
     ++ ((if a.hasSplicingCountdown = true then [lowBits a.spliceCountdown 8] else [])
     ++ ((if a.hasTransportPrivateData = true then
-          [lowBits a.transportPrivateDataLength 8] ++ (if a.transportPrivateDataLength > 0 then a.transportPrivateData else [])
+          [lowBits a.transportPrivateData.length 8] ++ a.transportPrivateData
         else [])
     ++ (if a.hasAdaptationExtensionField = true then afExtBytes (a.adaptationExtensionField.getD defaultExt) else [])))))
 
@@ -124,10 +123,9 @@ theorem afCore_body (a : PacketAdaptationField) (h1 : a.isOneByteStuffing = fals
   unfold afCore afBody
   rw [if_neg (by simp [h1])]
 
-theorem afBody_length (a : PacketAdaptationField) (h1 : a.isOneByteStuffing = false)
-    (hp : a.hasTransportPrivateData = true → a.transportPrivateDataLength = a.transportPrivateData.length) :
+theorem afBody_length (a : PacketAdaptationField) (h1 : a.isOneByteStuffing = false) :
     ((afBody a).length : Int) + a.stuffingLength.toNat = afSize a := by
-  have := afBytes_length' a h1 hp
+  have := afCore_stuffing_length a h1
   rw [afCore_body a h1] at this
   unfold afStuffing at this
   rw [if_neg (by simp [h1])] at this
@@ -196,18 +194,15 @@ theorem afBody_eq (a : PacketAdaptationField) (h : AFAgree a) :
   simp only [List.append_assoc]
   congr 4
   by_cases hc : a.hasTransportPrivateData = true
-  · simp only [if_pos hc, h.priv hc, lowBits_nat]
-    by_cases hz : ((a.transportPrivateData.length : Nat) : Int) > 0
-    · simp
-    · have : a.transportPrivateData = [] := List.eq_nil_of_length_eq_zero (by omega)
-      simp [this]
+  · simp only [if_pos hc, lowBits_nat]
+    simp
   · simp [hc]
 
 /-- **adaptation field**: `Spec.afEncode a = afBytes a` -/
 theorem af_eq (a : PacketAdaptationField) (h1 : a.isOneByteStuffing = false) (h : AFAgree a) (hsm : afSize a < 256) :
     Spec.afEncode a = afBytes a := by
   have hpos := afSize_pos a
-  have hlen := afBody_length a h1 h.priv
+  have hlen := afBody_length a h1
   unfold Spec.afEncode
   rw [if_neg (by rw [h.length]; omega)]
   simp only []
@@ -244,10 +239,9 @@ structure TSAgree (p : Packet) : Prop where
   size : packetHeadSize p + p.payload.length = 188
   payload : p.header.hasPayload = false → p.payload = []
 
-theorem afBytes_len (a : PacketAdaptationField) (h1 : a.isOneByteStuffing = false)
-    (hp : a.hasTransportPrivateData = true → a.transportPrivateDataLength = a.transportPrivateData.length) :
+theorem afBytes_len (a : PacketAdaptationField) (h1 : a.isOneByteStuffing = false) :
     ((afBytes a).length : Int) = 1 + afSize a + (if a.stuffingLength > 0 then 0 else 0) := by
-  have := afBody_length a h1 hp
+  have := afBody_length a h1
   rw [afBytes_split, afCore_body a h1]
   unfold afStuffing
   rw [if_neg (by simp [h1])]
@@ -279,7 +273,7 @@ theorem writePacket_eq_spec (p : Packet) (h : TSAgree p) : writePacket p 188 = .
       · have hsm : afSize a < 256 := by
           rw [hsz] at hsize; simp only [h1, Bool.false_eq_true, if_false] at hsize; omega
         refine ⟨af_eq a h1 (hag h1) hsm, ?_⟩
-        have := afBytes_len a h1 (hag h1).priv
+        have := afBytes_len a h1
         simp only [Bool.false_eq_true, if_false]
         split at this <;> omega
       · refine ⟨af_one_eq a h1 (hone h1), ?_⟩
@@ -320,7 +314,7 @@ theorem writePacket_eq_spec (p : Packet) (h : TSAgree p) : writePacket p 188 = .
 /-! ### from the predicates of the round-trip theorems -/
 
 theorem afAgree_of_wf_canon (a : PacketAdaptationField) (h : AFWF a) (hc : AFCanon a) : AFAgree a := by
-  refine ⟨hc.length, ?_, ?_, fun hs => (h.splice hs).1, fun hp => (h.priv hp).1, ?_⟩
+  refine ⟨hc.length, ?_, ?_, fun hs => (h.splice hs).1, ?_⟩
   · intro hp
     have := h.pcr hp
     cases hpcr : a.pcr with
